@@ -8,6 +8,11 @@
      graph/builder.go        AddEdge, UpdateEdge, AddNode, IsStaleEdgePolicy,
                              assertNodeAnnFreshness, IsKnownEdge, IsPublicNode
      lnwallet/chanvalidate   Validate (script equality)
+     graph/builder.go        networkHandler: connected / disconnected blocks,
+                             Start (PruneGraphNodes)
+     graph/db                PruneGraph, DisconnectBlockAtHeight,
+                             DeleteChannelEdges (+ zombie marking,
+                             makeZombiePubkeys), PruneGraphNodes
    Definitions only.  Signature verification, digests, the chain backend and
    the funding-script constructor are Section variables (oracles): theorems
    are implications over them; the correspondence run instantiates them with
@@ -124,13 +129,29 @@ Record state := mkSt {
 Definition init (own : N) : state :=
   mkSt [] [(own, shell)] [] [] [] [] [] [].
 
+(* a node is an endpoint of a stored channel.  The edge index is a map: every
+   key is looked up (for the canonical, duplicate-free tables of this model
+   this is the same as scanning the bindings). *)
+Definition has_chan (es : list (N * edge)) (n : N) : bool :=
+  existsb (fun x => match alookup (fst x) es with
+                    | Some e => N.eqb (e_n1 e) n || N.eqb (e_n2 e) n
+                    | None => false
+                    end) es.
+
+(* graph/db pruneGraphNodes: every node without a channel is deleted, except
+   the source node *)
+Definition sweep_nodes (own : N) (st : state) : state :=
+  mkSt (s_edges st)
+       (filter (fun x => N.eqb (fst x) own || has_chan (s_edges st) (fst x)) (s_nodes st))
+       (s_zombies st) (s_closed st) (s_rejects st) (s_premature st) (s_tokens st) (s_bans st).
+
 (* lnd restarts: everything the gossiper keeps in memory (reject cache,
    premature updates, rate limiters, ban scores) is gone; the graph, the zombie
-   index and the closed-scid index are persisted.  The graph store's lookup
-   caches are an implementation detail with no counterpart here: a restart is
-   the identity on the graph. *)
-Definition restart (st : state) : state :=
-  mkSt (s_edges st) (s_nodes st) (s_zombies st) (s_closed st) [] [] [] [].
+   index and the closed-scid index are persisted.  graph.Builder.Start sweeps
+   the unconnected nodes (PruneGraphNodes).  The graph store's lookup caches
+   are an implementation detail with no counterpart here. *)
+Definition restart (own : N) (st : state) : state :=
+  sweep_nodes own (mkSt (s_edges st) (s_nodes st) (s_zombies st) (s_closed st) [] [] [] []).
 
 Definition height_of (scid : N) : N := N.shiftr scid 40.
 Definition dir_of (cf : N) : N := N.land cf 1.
@@ -161,6 +182,10 @@ Definition add_reject (st : state) (scid peer : N) : state :=
 
 Definition add_zombie (st : state) (scid : N) : state :=
   mkSt (s_edges st) (s_nodes st) (ainsert scid (0, 0) (s_zombies st)) (s_closed st)
+       (s_rejects st) (s_premature st) (s_tokens st) (s_bans st).
+
+Definition set_zombie (st : state) (scid : N) (keys : N * N) : state :=
+  mkSt (s_edges st) (s_nodes st) (ainsert scid keys (s_zombies st)) (s_closed st)
        (s_rejects st) (s_premature st) (s_tokens st) (s_bans st).
 
 Definition del_zombie (st : state) (scid : N) : state :=
@@ -208,6 +233,69 @@ Definition is_public (own : N) (st : state) (n : N) : bool :=
              (N.eqb (e_n1 e) n || N.eqb (e_n2 e) n) &&
              ((negb (N.eqb (e_n1 e) own) && negb (N.eqb (e_n2 e) own)) || e_proof e))
           (s_edges st).
+
+(* ---- graph maintenance by the Builder and the graph store (no gossip
+        message involved) ---- *)
+Definition drop_edges (f : N -> bool) (st : state) : state :=
+  mkSt (filter (fun x => negb (f (fst x))) (s_edges st)) (s_nodes st) (s_zombies st)
+       (s_closed st) (s_rejects st) (s_premature st) (s_tokens st) (s_bans st).
+
+(* graph/db makeZombiePubkeys, AS DOCUMENTED there (strict zombie pruning):
+   only the side whose policy is missing or older may resurrect the channel;
+   with no policy at all either side may.  t1, t2: last-update timestamps of
+   the two policies. *)
+Definition make_zombie_keys (n1 n2 : N) (t1 t2 : option N) : N * N :=
+  match t1, t2 with
+  | None, None => (n1, n2)
+  | None, Some _ => (n1, 0)
+  | Some a, Some b => if N.ltb a b then (n1, 0) else (0, n2)
+  | Some _, None => (0, n2)
+  end.
+
+Inductive gop :=
+| OConnect (spent : list N)      (* a block is connected; it spends the funding outputs of these scids *)
+| ODisconnect (lo hi : N)        (* DisconnectBlockAtHeight: every channel with lo <= scid < hi goes *)
+| ODelete (scid : N) (zombie strict : bool)   (* DeleteChannelEdges(strictZombiePruning, markZombie, scid) *)
+| OSweep.                        (* PruneGraphNodes *)
+
+(* sweep_always: KVStore.PruneGraph sweeps the unconnected nodes after EVERY
+   connected block; SQLStore.PruneGraph only when the block closed a known
+   channel. *)
+Definition op_closes (st : state) (spent : list N) : bool :=
+  existsb (fun x => smem (fst x) spent) (s_edges st).
+
+Definition op_sweeps (sweep_always : bool) (st : state) (o : gop) : bool :=
+  match o with
+  | OConnect spent => sweep_always || op_closes st spent
+  | OSweep => true
+  | _ => false
+  end.
+
+Definition apply_op (sweep_always : bool) (own : N) (st : state) (o : gop) : state :=
+  match o with
+  | OConnect spent =>
+    let st1 := drop_edges (fun k => smem k spent) st in
+    if sweep_always || op_closes st spent then sweep_nodes own st1 else st1
+  | ODisconnect lo hi => drop_edges (fun k => N.leb lo k && N.ltb k hi) st
+  | ODelete scid z strict =>
+    match alookup scid (s_edges st) with
+    | None => st                                   (* ErrEdgeNotFound: nothing is written *)
+    | Some e =>
+      let st1 := drop_edges (N.eqb scid) st in
+      if z then
+        set_zombie st1 scid
+          (if strict
+           then make_zombie_keys (e_n1 e) (e_n2 e)
+                                 (option_map p_ts (e_p1 e)) (option_map p_ts (e_p2 e))
+           else (e_n1 e, e_n2 e))
+      else st1
+    end
+  | OSweep => sweep_nodes own st
+  end.
+
+(* removal of a channel that is NOT followed by a node sweep inside the store *)
+Definition is_unswept_removal (o : gop) : bool :=
+  match o with ODisconnect _ _ | ODelete _ _ _ => true | _ => false end.
 
 Section Handlers.
   Variable cfg : config.
@@ -445,5 +533,32 @@ Section Handlers.
     match h with
     | [] => st
     | (now, peer, m) :: r => run (fst (step now peer i st m)) (i + 1) r
+    end.
+
+  (* histories of gossip messages, graph maintenance events and restarts.  The
+     boolean carried along ("dirty") says that a channel was removed by a path
+     that does not sweep the nodes (re-org, explicit deletion) and no sweep
+     (block connect that sweeps, PruneGraphNodes, restart) has happened since. *)
+  Inductive event :=
+  | EMsg (now peer : N) (m : msg)
+  | EOp (o : gop)
+  | ERestart.
+
+  Definition ev_step (sweep_always : bool) (i : N) (sd : state * bool) (e : event)
+    : state * bool :=
+    let (st, dirty) := sd in
+    match e with
+    | EMsg now peer m => (fst (step now peer i st m), dirty)
+    | EOp o =>
+      (apply_op sweep_always (c_own cfg) st o,
+       if op_sweeps sweep_always st o then false else dirty || is_unswept_removal o)
+    | ERestart => (restart (c_own cfg) st, false)
+    end.
+
+  Fixpoint run_events (sweep_always : bool) (sd : state * bool) (i : N) (h : list event)
+    : state * bool :=
+    match h with
+    | [] => sd
+    | e :: r => run_events sweep_always (ev_step sweep_always i sd e) (i + 1) r
     end.
 End Handlers.
